@@ -294,7 +294,7 @@ func (p *Path) frameCheck(site string, locs []Loc) {
 		case l.Pred != "" || l.AllTag != 0:
 			f = fmt.Sprintf("(forall ((a Ref)) (=> %s (or (and (> (stamp a) now_0) (< (ftag a) 2000000)) %s)))", locCond(l, "a"), p.modCond(l.Heap, "a"))
 		case l.All:
-			f = "false"
+			f = fmt.Sprintf("(forall ((a Ref)) (or (> (stamp a) now_0) %s))", p.modCond(l.Heap, "a"))
 		case l.MapRow:
 			f = fmt.Sprintf("(or (> (stamp %s) now_0) %s)", l.Addr, p.modCond(l.Heap, l.Addr))
 		case l.Region && l.Inner > 0:
